@@ -10,6 +10,11 @@ Clause -> case family
         history/* (after every step the whole log is compared with a list
         model; frames are decoded by hand from the 8 bytes), code/* (every one
         of the 65 536 codes is decoded once), interleave/*.
+        interleave-rtr/*, history/*/rtr, wait-seq/*/rtr: "one entry per (emergency) frame"
+        also means no entry for anything else: a remote frame or an error frame with
+        the node's EMCY COB-ID (delivered through the library's own can.Listener) is
+        not an emergency frame; log, active list and callbacks stay as they are and a
+        waiting caller is not handed anything.
   (b) "active list holds exactly the entries received since the last
       error-reset frame"
         interleave/* (every sequence up to length 4..6 over two errors, two
@@ -32,6 +37,11 @@ Clause -> case family
         arrives 0.3 s .. a few seconds after the caller blocked, silence with
         a time-out of 0.25 s .. a few seconds, and non-matching traffic that
         goes on far beyond the time-out.
+        wait-seq/*/paced: the frames of one filtered wait arrive at separate moments of
+        real time (two to six non-matching ones, then the matching one at about 0.6 of
+        a 2..5 s time-out; 70 non-matching ones 20 ms apart, then the matching one,
+        against 20 s; only non-matching ones): the matching entry is handed over, and
+        nothing is reported before 0.8 of the time-out has passed.
         wait-multi/*: 2..4 callers with different filters, started at different
         points of a frame sequence, each handed its own next matching entry.
       long/*: "any sequence": 300 .. 20 000 (thorough 70 000) frames on two consumers (sparse or
@@ -76,7 +86,16 @@ RULE = ("case kinds: code (one per 16-bit code, exhaustive: description relation
         "time-out, silence with time-out 0.25/1.4 s (thorough 3 s), non-matching traffic every ~4 ms against a 50 ms time-out), "
         "wait_multi (2..4 callers with their own filters start waiting at drawn points of a frame sequence for two nodes; "
         "each must be handed the first frame of the waited node that matches its filter and arrived after it blocked; "
-        "the generator appends frames until every caller has a match). "
+        "the generator appends frames until every caller has a match), "
+        "not-emcy (bus rigs whose consumer side is fed through the library's can.Listener: remote frames and error frames "
+        "with the EMCY COB-ID of one of the two nodes; enumerated: every sequence up to length 4 (thorough 5) over {error A, "
+        "error B, reset, remote frame node 0, remote frame node 1, error frame node 0} holding at least one of the latter three; "
+        "drawn as an op of history and as a frame kind of wait_seq (while the caller is blocked, between calls); half of the "
+        "other bus histories also go through the listener), "
+        "paced waits (wait_seq calls whose bursts are fed at given moments after the caller blocked (again): enumerated shapes with "
+        "an explicit time-out of 3 s (thorough 2..5 s): 2..6 non-matching frames, then the matching one at ~0.6 of the time-out; "
+        "only non-matching frames against 1.5 s; 70 non-matching frames 20 ms apart (thorough also 30 x 0.1 s, 150 x 10 ms, 12 x 0.4 s) and then "
+        "the matching one against the 20 s time-out; Hypothesis: 2..4 frames at drawn twentieths of a 1.5..3 s time-out). "
         "Oracle: list model written from the property text "
         "and the CiA 301 frame layout / error class table. Non-trivial: history or interleaving with an error "
         "before and an error after a reset frame on the same consumer; wait case with a pre-history or >= 2 fed "
@@ -105,6 +124,15 @@ ASSUMPTIONS = [
     "(200 x the time-out; the library's own re-wait allows about 2 x); with a 20 s time-out a matching frame arriving "
     "0.3..5.5 s after the caller blocked must be handed over; no upper bound on how late a silent time-out is reported "
     "except the 30 s hang guard",
+    "a remote frame (RTR) or an error frame is not an emergency frame even when it carries a node's EMCY COB-ID (CiA 301: "
+    "the emergency object is an 8-byte data frame and is never requested by RTR): it adds no log entry, leaves the "
+    "active list alone, triggers no callback and is not handed to a waiting caller; such frames are only delivered "
+    "through the library's own can.Listener (`network.listeners[0].on_message_received`, what a can.Notifier calls), "
+    "never through Network.notify, which has no notion of frame flags",
+    "paced waits: a call with an explicit short time-out T is judged only by what the calling thread measured around "
+    "the call: None after less than 0.8 T is 'gave up before the time-out' whatever was fed (the statement allows "
+    "nothing only on time-out); None after more than that is a miss only if the matching frame had been delivered "
+    "within 0.5 T of the call, otherwise the case counts as inconclusive (machine load) and nothing is asserted",
     "description relation: a code inside a CiA 301 class must carry that class's keyword; a code outside every "
     "class may have an empty description or one of a class sharing its high nibble (0x01xx..0x0Fxx: must not be "
     "described as error reset, they are not reset frames)",
@@ -249,7 +277,7 @@ def _showl(lst):
 
 
 class Rig:
-    def __init__(self, kind, ids, ctor="arg"):
+    def __init__(self, kind, ids, ctor="arg", listener=False):
         from canopen.emcy import EmcyConsumer
         self.kind = kind
         self.ids = list(ids)
@@ -263,6 +291,9 @@ class Rig:
             self.hub = Hub()
             self.net_p, self.port_p = self.hub.attach("producers")
             self.net_c, self.port_c = self.hub.attach("consumers")
+            # listener: every frame reaches the consumers' network through the library's own
+            # can.Listener (Notifier -> MessageListener -> Network.notify), flags and all
+            self.port_c.via_listener = bool(listener)
             self.locals = []
             self.remotes = []
             for k, i in enumerate(ids):
@@ -299,6 +330,12 @@ class Rig:
         fr = Frame(can_id, bytes(data8), ts=ts)
         self.hub.inject(fr)
         return fr.ts
+
+    def not_emcy(self, k, error=False):
+        """A frame with node k's EMCY COB-ID that is NOT an emergency frame: a remote
+        transmission request (no data) or an error frame."""
+        fr = Frame(0x80 + self.ids[k], b"", remote=not error, error=bool(error), extended=False)
+        self.hub.inject(fr)
 
     def bus_errors(self):
         if self.kind != "bus":
@@ -348,7 +385,7 @@ def _compare(rig, D, tag, last_was_reset):
 def _run_ops(rig, ops, D):
     """Interpret a history; returns feature dict."""
     feat = {"producer": False, "cb": False, "clear": False, "noise": False,
-            "nframes": 0, "nresets": 0, "between": False}
+            "nframes": 0, "nresets": 0, "between": False, "rtr": False, "rtr_after_error": False}
     # per consumer: 0 nothing, 1 error seen, 2 error then reset, 3 error, reset, error
     phase = [0 for _ in rig.ids]
     for n, op in enumerate(ops):
@@ -421,6 +458,17 @@ def _run_ops(rig, ops, D):
                 feat["noise"] = True
                 rig.hub.inject(Frame(op["can_id"], bytes(op["data"]), ts=op["ts"]))
                 fcode = None
+            elif kind == "rtr":
+                # a remote / error frame with the node's EMCY COB-ID is not an emergency frame:
+                # no entry, active list untouched, no callback
+                if rig.kind != "direct":
+                    feat["rtr"] = True
+                    if rig.models[k].active:
+                        feat["rtr_after_error"] = True
+                    rig.not_emcy(k, op.get("error", False))
+                    tag = (f"step {n} ({'error' if op.get('error') else 'remote'} frame with COB-ID "
+                           f"0x{0x80 + rig.ids[k]:X}, not an emergency frame)")
+                fcode = None
             elif kind == "readd":
                 # the node object is handed to its network once more: nothing changes for the consumer
                 feat["noise"] = True
@@ -430,7 +478,7 @@ def _run_ops(rig, ops, D):
             else:
                 raise ValueError(kind)
         except Exception as e:
-            if kind not in ("frame", "send", "preset", "clear", "noise", "readd"):
+            if kind not in ("frame", "send", "preset", "clear", "noise", "readd", "rtr"):
                 raise
             D.append(Discrepancy(f"C16/raises/{kind}", f"{tag}: {type(e).__name__}: {e}"))
             return feat
@@ -460,9 +508,12 @@ def _run_ops(rig, ops, D):
 
 def _run_history(case):
     D = []
-    rig = Rig(case["rig"], case["ids"], case.get("ctor", "arg"))
+    rig = Rig(case["rig"], case["ids"], case.get("ctor", "arg"), case.get("listener", False))
     feat = _run_ops(rig, case["ops"], D)
-    if case["kind"] == "interleave":
+    if case["kind"] == "interleave" and feat["rtr"]:
+        klass = f"interleave-rtr/len{sum(1 for o in case['ops'] if o['op'] in ('frame', 'rtr'))}"
+        return Outcome(feat["rtr_after_error"], klass, D)
+    elif case["kind"] == "interleave":
         klass = f"interleave/len{sum(1 for o in case['ops'] if o['op'] == 'frame')}"
     elif case["kind"] == "roundtrip":
         op = case["ops"][-1]
@@ -474,6 +525,8 @@ def _run_history(case):
         shape = ("reset-between-errors" if feat["between"] else
                  "with-reset" if feat["nresets"] else "errors-only" if n else "no-frames")
         klass = (f"history/{case['rig']}/{shape}/frames{size}"
+                 + ("/listener" if case.get("listener") else "")
+                 + ("/rtr" if feat["rtr"] else "")
                  + ("/producer" if feat["producer"] else "")
                  + ("/cb" if feat["cb"] else "")
                  + ("/clear" if feat["clear"] else ""))
@@ -829,6 +882,12 @@ class _Probe:
             self.cond.__dict__.pop(name, None)
 
 
+def _fshow(f):
+    if "not_emcy" in f:
+        return f"{f['not_emcy']}-frame@{f.get('of', 0)}"
+    return hex(f["code"]) + "@" + str(f.get("node", 0))
+
+
 def _first_match(call):
     """Index (in feed order, all frames counted) of the first frame of the WAITED node that
     matches the filter, or None."""
@@ -842,7 +901,7 @@ def _first_match(call):
 
 
 def _run_wait_seq(case):
-    rig = Rig(case.get("rig", "direct"), case["ids"])
+    rig = Rig(case.get("rig", "direct"), case["ids"], listener=case.get("listener", False))
     for k in range(case.get("cbs", 0)):
         rig.add_callback(k % 2)
     consumer = rig.consumers[0]
@@ -864,7 +923,10 @@ def _wait_seq_body(case, rig, consumer, probe):
         ts = 1000 + seq[0]
         node = f.get("node", 0)
         if node == "noise":
-            if rig.kind == "bus":
+            if rig.kind == "bus" and "not_emcy" in f:
+                # remote / error frame with the EMCY COB-ID of node f["of"]: not an emergency frame
+                rig.not_emcy(f.get("of", 0), f["not_emcy"] == "error")
+            elif rig.kind == "bus":
                 rig.hub.inject(Frame(f["can_id"], ref_encode(f["code"], f["reg"], bytes(f["data"])), ts=ts))
             return None
         data = bytes(f["data"])
@@ -904,9 +966,12 @@ def _wait_seq_body(case, rig, consumer, probe):
         box = {}
         done = threading.Event()
         q = probe.q = queue.Queue()
+        delays = call.get("delays") or ([call["delay"]] if call.get("delay") else [])
+        timed = bool(call.get("timeout")) and bool(call["feed"])
+        t_match = None
 
         def waiter():
-            t0 = time.monotonic()
+            t0 = box["t0"] = time.monotonic()
             try:
                 if form == "kw":
                     box["res"] = consumer.wait(emcy_code=filt, timeout=timeout)
@@ -959,9 +1024,9 @@ def _wait_seq_body(case, rig, consumer, probe):
                             finished = True
                         else:
                             armed = True
-                    if bi == 0 and call.get("delay") and not finished:
-                        tags.add("delayed")
-                        time.sleep(call["delay"])
+                    if bi < len(delays) and delays[bi] and not finished:
+                        tags.add("paced" if len(delays) > 1 else "delayed")
+                        time.sleep(delays[bi])
                     if done.is_set():
                         finished = True
                     n0 = probe.notifies
@@ -976,6 +1041,7 @@ def _wait_seq_body(case, rig, consumer, probe):
                                 got_f = deliver(f)
                                 if pos == expect_i:
                                     want = got_f
+                                    t_match = time.monotonic()
                                 pos += 1
                     if len(burst) == 1:
                         if pos == expect_i:
@@ -983,10 +1049,13 @@ def _wait_seq_body(case, rig, consumer, probe):
                         got_f = deliver(burst[0])
                         if pos == expect_i:
                             want = got_f
+                            t_match = time.monotonic()
                         pos += 1
                     nfed += len(burst)
                     if any(f.get("node", 0) != 0 for f in burst):
                         tags.add("other-node")
+                    if any("not_emcy" in f for f in burst) and rig.kind == "bus":
+                        tags.add("rtr")
                     if probe.notifies != n0:
                         armed = False
         except Exception as e:
@@ -994,10 +1063,11 @@ def _wait_seq_body(case, rig, consumer, probe):
         th.join(GUARD + 3 * timeout)
         what = (f"call {ci + 1} of {len(case['calls'])}: wait({'0x%04X' % filt if filt is not None else None}, "
                 f"timeout {timeout}) on node {rig.ids[0]} after {start_seq} earlier frames"
-                + (f", non-matching traffic {[hex(f['code']) + '@' + str(f.get('node', 0)) for f in flood]} every "
+                + (f", non-matching traffic {[_fshow(f) for f in flood]} every "
                    f"{FLOOD_PACE}s" if flood else
-                   f", fed {[[hex(f['code']) + '@' + str(f.get('node', 0)) for f in b] for b in call['feed']]}")
-                + (f" starting {call['delay']}s after the caller blocked" if call.get("delay") else ""))
+                   f", fed {[[_fshow(f) for f in b] for b in call['feed']]}")
+                + (f" starting {call['delay']}s after the caller blocked" if call.get("delay") else "")
+                + (f", burst i fed {call['delays']}[i] s after the caller blocked (again)" if call.get("delays") else ""))
         if D:
             break
         if th.is_alive() or stuck:
@@ -1031,9 +1101,23 @@ def _wait_seq_body(case, rig, consumer, probe):
                 sig = "non-matching-entry" if got in own else "foreign-entry"
                 D.append(Discrepancy(f"C16/wait/{sig}", f"{what}: returned {_show(got)}, want None (no matching "
                                      f"frame of this node arrived after the call)"))
-            elif call.get("timeout") and not call["feed"] and not flood and box["elapsed"] < 0.8 * timeout:
+            elif call.get("timeout") and not flood and box["elapsed"] < 0.8 * timeout:
                 D.append(Discrepancy("C16/wait/gave-up-early", f"{what}: returned None after {box['elapsed']:.3f}s "
-                                     f"of silence, before the time-out"))
+                                     + ("of silence" if not call["feed"] else "(only non-matching frames arrived)")
+                                     + ", before the time-out"))
+        elif got is None and timed:
+            # a short explicit time-out and frames spread over real time: judged only by what the
+            # caller itself measured around the call, so machine load cannot raise a false alarm
+            if box["elapsed"] < 0.8 * timeout:
+                D.append(Discrepancy("C16/wait/gave-up-early", f"{what}: returned None after {box['elapsed']:.3f}s, "
+                                     f"before the time-out ("
+                                     + ("the matching frame had not been fed yet" if returned_before_match or want is None
+                                        else f"{_show(want)} arrived while waiting") + ")"))
+            elif want is not None and not returned_before_match and t_match - box["t0"] <= 0.5 * timeout:
+                D.append(Discrepancy("C16/wait/missed", f"{what}: returned None after {box['elapsed']:.3f}s although "
+                                     f"{_show(want)} arrived {t_match - box['t0']:.3f}s after the call"))
+            else:
+                tags.add("inconclusive-load")
         elif got is None:
             if returned_before_match or want is None:
                 sig = "gave-up-early" if box["elapsed"] < timeout / 2 else "missed"
@@ -1224,6 +1308,35 @@ def interleavings(maxlen):
         yield {"kind": "interleave", "rig": rig, "ids": [1 + (i % 127)], "ops": ops}
 
 
+def not_emcy_interleavings(maxlen):
+    """Every sequence up to `maxlen` over {error A, error B, reset, remote frame with the COB-ID of
+    node 0, remote frame with the COB-ID of node 1, error frame with the COB-ID of node 0} that
+    holds at least one of the three non-emergency frames, on a two-node bus rig whose consumer
+    side is fed through the library's own can.Listener."""
+    syms = ["A", "B", "R", "T0", "T1", "E0"]
+
+    def rec(prefix, n):
+        if any(len(x) == 2 for x in prefix):
+            yield prefix
+        if n == 0:
+            return
+        for a in syms:
+            yield from rec(prefix + [a], n - 1)
+    i = 0
+    for seq in rec([], maxlen):
+        i += 1
+        ops = [{"op": "cb", "node": 0}]
+        for j, a in enumerate(seq):
+            if j == len(seq) // 2:
+                ops.append({"op": "cb", "node": j % 2})
+            if len(a) == 2:
+                ops.append({"op": "rtr", "node": int(a[1]), "error": a[0] == "E"})
+            else:
+                _, code, reg, data = ALPHABET["ABR".index(a)]
+                ops.append(_fr(code, reg, data, ts=j + 1, node=(i + j) % 3 // 2))
+        yield {"kind": "interleave", "rig": "bus", "listener": True, "ids": [1 + (i % 126), 127], "ops": ops}
+
+
 def roundtrips():
     codes = [0x0000, 0x00FF, 0x0100, 0x1000, 0x1234, 0x3412, 0x8000, 0x7FFF, 0xFF00, 0xFFFF, 0x00AB, 0xAB00]
     i = 0
@@ -1333,6 +1446,8 @@ def history(draw, maxlen):
             ops.append({"op": "clear", "node": node})
         elif k == 15 and form == 4:
             ops.append({"op": "readd", "node": node})
+        elif k == 15 and form == 3:
+            ops.append({"op": "rtr", "node": node, "error": bool(buf) and dlen == 0})
         elif k == 15:
             can_id = draw(st.integers(0x80, 0xFF))
             if can_id - 0x80 in ids:
@@ -1347,8 +1462,17 @@ def history(draw, maxlen):
             rd = draw(st.binary(min_size=6, max_size=6))
             ops.append({"op": "preset", "node": node, "reg": rd[0], "data": rd[1:1 + dlen],
                         "form": _FORMS_RESET[form % 4]})
-    return {"kind": "history", "rig": rig, "ids": ids, "ops": ops,
-            "ctor": "od" if (rig == "bus" and (ids[0] + len(ops)) % 4 == 0) else "arg"}
+    return _with_listener({"kind": "history", "rig": rig, "ids": ids, "ops": ops,
+                           "ctor": "od" if (rig == "bus" and (ids[0] + len(ops)) % 4 == 0) else "arg"})
+
+
+def _with_listener(case):
+    """Bus histories that hold a remote / error frame, and every other one of the rest, reach the
+    consumers through the library's own can.Listener."""
+    if case["rig"] == "bus" and (any(o["op"] == "rtr" for o in case["ops"])
+                                 or (case["ids"][1] + len(case["ops"])) % 2 == 0):
+        case["listener"] = True
+    return case
 
 
 class _Prng:
@@ -1419,16 +1543,20 @@ def expand_history(seed, n):
             can_id = 0x80 + r.below(0x80)
             if can_id - 0x80 in ids:
                 can_id = 0x80
-            ops.append({"op": "noise", "can_id": can_id, "data": r.next().to_bytes(8, "little"),
-                        "ts": _ts(r.below(2 ** 36))})
+            noise = {"op": "noise", "can_id": can_id, "data": r.next().to_bytes(8, "little"),
+                     "ts": _ts(r.below(2 ** 36))}
+            if rd[7] % 3 == 0:
+                # (same number of stream values consumed) a remote / error frame with the node's own COB-ID
+                noise = {"op": "rtr", "node": node, "error": rd[6] % 4 == 0}
+            ops.append(noise)
         elif k < 19:
             ops.append({"op": "send", "node": node, "code": code, "reg": rd[0],
                         "data": rd[1:1 + r.below(6)], "form": _FORMS_SEND[r.below(5)]})
         else:
             ops.append({"op": "preset", "node": node, "reg": rd[0], "data": rd[1:1 + r.below(6)],
                         "form": _FORMS_RESET[r.below(4)]})
-    return {"kind": "history", "rig": rig, "ids": ids, "ops": ops,
-            "ctor": "od" if (rig == "bus" and (ids[0] + len(ops)) % 4 == 0) else "arg"}
+    return _with_listener({"kind": "history", "rig": rig, "ids": ids, "ops": ops,
+                           "ctor": "od" if (rig == "bus" and (ids[0] + len(ops)) % 4 == 0) else "arg"})
 
 
 def expanded_histories(maxlen):
@@ -1527,6 +1655,45 @@ def wait_seq_enum(thorough):
                        pre=[_on(_wf(X), 1)])
             yield case([call(X, [[_on(_wf(X, 1), 1)], [_on(_wf(X, 2), 1), noise]])])        # nothing for the waited node
             yield case([call(X, [[_wf(Y)], [_on(_wf(X, 1), 1)], [_wf(Z)], [_on(_wf(X, 2), 1)], [_wf(X)]])])
+    # remote / error frames with the waited node's own EMCY COB-ID arrive while the caller is blocked
+    # (through the library's can.Listener): they are not emergency frames, nothing is handed over
+    rtr = {"node": "noise", "of": 0, "not_emcy": "remote"}
+    rtr1 = {"node": "noise", "of": 1, "not_emcy": "remote"}
+    err = {"node": "noise", "of": 0, "not_emcy": "error"}
+    rig = "bus"
+    for filt in (None, Z, X):
+        yield case([call(filt, [[rtr], [_wf(Z if filt == Z else X)]])], pre=[_wf(X, 5)], listener=True)
+        yield case([call(filt, [[err], [rtr1, rtr], [_wf(Y)], [rtr]] + ([] if filt is None else [[_wf(filt, 1)]])),
+                    call(filt, [], gap=[rtr, _wf(X, 2), err])], pre=[_wf(Y, 5)], listener=True)
+        yield case([call(filt, [[rtr, rtr1]])], listener=True)
+        yield case([call(filt, [[_wf(Y) if filt is not None else rtr1], [rtr, _wf(Z if filt == Z else X, 3)]])],
+                   listener=True)
+    # timing: two or more non-matching frames arrive at separate moments of the waiting time, the
+    # matching one later but still before the time-out (the time-out is a bound for the whole call;
+    # whatever arrives before it has passed is handed over)
+    shapes = [(3.0, [1.2, 0.45, 0.2], [Y, Z, X]), (3.0, [0.6, 0.5, 0.4, 0.2], [Y, 0x2101, Y, X])]
+    if thorough:
+        shapes += [(2.0, [0.8, 0.3, 0.15], [Y, Y, X]), (5.0, [1.0, 1.0, 1.0, 0.5], [Y, Z, Y, X]),
+                   (3.0, [0.3, 0.3, 0.3, 0.3, 0.3, 0.3], [Y, Z, Y, Z, Y, X]), (4.0, [1.7, 0.6, 0.3], [Z, Y, X]),
+                   (3.0, [1.2, 0.45, 0.2], [Y, Z, None])]
+    for T, delays, codes in shapes:
+        rig = None
+        filt = X if codes[-1] == X else None
+        feed = [[_wf(c if c is not None else Y, j)] for j, c in enumerate(codes)]
+        yield case([call(filt, feed, delays=delays, timeout=T)])
+        if thorough:
+            feed2 = [[_on(_wf(X, 7), 1), feed[0][0]]] + feed[1:]
+            yield case([call(X, [[_wf(Y)]], gap=[_wf(X, 9)], timeout=0.3),
+                        call(filt, feed2, delays=delays, timeout=T)], pre=[_wf(X, 8)])
+    # ... and only non-matching ones: nothing, and not before the time-out
+    for T, delays in [(1.5, [0.5, 0.4])] + ([(1.5, [0.3, 0.3, 0.3]), (3.0, [1.2, 0.6])] if thorough else []):
+        yield case([call(X, [[_wf(Y, j)] for j in range(len(delays))], delays=delays, timeout=T)])
+    # many non-matching frames, each a wake-up of its own, at a steady pace; then the matching one,
+    # a small fraction of the (20 s) time-out after the call
+    for n, pace in [(70, 0.02)] + ([(30, 0.1), (150, 0.01), (12, 0.4)] if thorough else []):
+        for rig in ("direct", "bus"):
+            feed = [[_wf((Y, Z, 0x2101)[j % 3], j)] for j in range(n)] + [[_wf(X)]]
+            yield case([call(X, feed, delays=[pace] * (n + 1))])
     rig = None      # alternating from here on
     # a long log before the call
     for n in (300, 1030) + ((4200, 17000) if thorough else ()):
@@ -1556,10 +1723,13 @@ def wait_seq_case(draw):
     code = st.sampled_from(pool)
     rig = draw(st.sampled_from(["direct", "bus"]))
     a = draw(st.integers(1, 126))
-    nodes = [0, 0, 0, 1, 1] + (["noise"] if rig == "bus" else [])
+    nodes = [0, 0, 0, 1, 1] + (["noise", "noise"] if rig == "bus" else [])
 
     def mk(c, r, d, node):
         f = {"code": c, "reg": r, "data": d, "node": node}
+        if node == "noise" and r % 2:
+            # remote / error frame with the EMCY COB-ID of one of the two nodes
+            return {"node": "noise", "of": r // 2 % 2, "not_emcy": "error" if r // 4 % 4 == 0 else "remote"}
         if node == "noise":
             nid = (a + 1 + r % 125) % 128           # a COB-ID 0x80..0xFF that is not one of the two nodes' EMCY ids
             f["can_id"] = 0x80 + (0 if nid in (a, 127) else nid)
@@ -1579,11 +1749,43 @@ def wait_seq_case(draw):
         calls.append({"filter": draw(st.one_of(st.none(), code, code, st.just(0))),
                       "form": draw(st.sampled_from(["pos", "kw", "timeout_only"])), "gap": gap, "feed": feed})
     c = {"kind": "wait_seq", "rig": rig, "ids": [a, 127], "cbs": draw(st.integers(0, 2)), "pre": pre, "calls": calls}
+    if rig == "bus" and (a % 2 or any("not_emcy" in f for cl in calls for b in [cl["gap"]] + cl["feed"] for f in b)
+                         or any("not_emcy" in f for f in pre)):
+        c["listener"] = True
     nlong = draw(st.sampled_from([0, 0, 0, 0, 0, 0, 0, 257, 300, 1030]))
     if nlong:
         c["pre_long"] = nlong
         c["seed"] = draw(st.integers(0, 2 ** 32))
     return c
+
+
+@st.composite
+def wait_timed_case(draw):
+    """One wait(code, T) with T of 1.5 .. 3 s during which 2..4 frames arrive at drawn moments
+    (twentieths of T after the caller blocked (again), in total at most 0.7 T); the last one matches
+    the filter (or, one case in five, none does: nothing, and not before the time-out)."""
+    T = draw(st.sampled_from([1.5, 2.0, 3.0]))
+    n = draw(st.integers(2, 4))
+    steps = draw(st.lists(st.integers(1, 8), min_size=n + 1, max_size=n + 1))
+    scale = min(1.0, 14.0 / sum(steps))
+    delays = [round(T * k * scale / 20.0, 3) for k in steps]
+    other = st.sampled_from([0x9000, 0x0000, 0x2101, 0x2000])
+    hit = draw(st.integers(0, 4)) != 0
+    feed = []
+    for j in range(n):
+        b = [_wf(draw(other), j)]
+        if draw(st.integers(0, 3)) == 0:
+            b.insert(0, _on(_wf(0x2001, 20 + j), 1))          # the waited code, but from the other node
+        feed.append(b)
+    if hit:
+        feed.append([_wf(0x2001, 9)])
+    else:
+        delays = delays[:n]
+    rig = draw(st.sampled_from(["direct", "bus"]))
+    return {"kind": "wait_seq", "rig": rig, "ids": [draw(st.integers(1, 126)), 127], "cbs": draw(st.integers(0, 1)),
+            "pre": [_wf(0x2001, 30)] if draw(st.booleans()) else [],
+            "calls": [{"filter": 0x2001, "form": draw(st.sampled_from(["pos", "kw"])), "gap": [], "feed": feed,
+                       "delays": delays, "timeout": T}]}
 
 
 def _close_multi(ops):
@@ -1656,6 +1858,7 @@ def _showcase():
     yield next(c for i, c in enumerate(interleavings(4)) if i == 15)
     yield next(c for c in wait_seq_enum(False) if len(c["calls"]) == 3)
     yield next(long_enum(False))
+    yield next(c for c in not_emcy_interleavings(3) if len(c["ops"]) == 5)
 
 
 def _spread(cases, nshards):
@@ -1673,6 +1876,9 @@ def search(ctx):
         ctx.enumerate(_spread(_showcase(), ctx.nshards))
     ctx.enumerate(interleavings(6 if thorough else 4),
                   "every error/reset/near-reset interleaving up to length %d" % (6 if thorough else 4))
+    ctx.enumerate(not_emcy_interleavings(5 if thorough else 4),
+                  "every sequence up to length %d over errors, reset and remote / error frames with an EMCY COB-ID "
+                  "(at least one of the latter), through the library's can.Listener" % (5 if thorough else 4))
     ctx.enumerate(wait_enum(), "wait: 3 pre-histories x 12 feed shapes x 4 filters")
     ctx.enumerate(wait_many_enum(), "wait: 2..4 concurrent callers x filter mixes, one matching frame")
     ctx.enumerate(roundtrips(), "producer round trip: every register x data length 0..5 x send/reset")
@@ -1692,6 +1898,8 @@ def search(ctx):
         ctx.hypothesis(wait_seq_case(), 800 if thorough else 200, salt=3)
     if not ctx.over_budget():
         ctx.hypothesis(wait_multi_case(), 600 if thorough else 150, salt=5)
+    if not ctx.over_budget():
+        ctx.hypothesis(wait_timed_case(), 12 if thorough else 3, salt=6)
     if not ctx.over_budget():
         ctx.hypothesis(long_st(6000 if thorough else 1500), 60 if thorough else 15, salt=4)
     for chunk in range(8 if thorough else 2):
